@@ -38,11 +38,11 @@ UpdFinger(r) ==
   ELSE IF r.gen # "ok" THEN {<<"C10", "update-method-rejected", "", r.id>>}
   ELSE IF ~r.compiles THEN {<<"C01", "does-not-compile", "update", r.id>>}
   ELSE IF r.panic THEN {<<"C10", "update-method-panics", "", r.id>>}
-  ELSE IF r.srcNil THEN (IF \E i \in (1..4) \cup {6, 7} : r.post[i] # "keep" THEN {<<"C10", "nil-source-modified-target", "", r.id>>} ELSE {})
+  ELSE IF r.srcNil THEN (IF \E i \in (1..4) \cup {6, 7, 8} : r.post[i] # "keep" THEN {<<"C10", "nil-source-modified-target", "", r.id>>} ELSE {})
   ELSE UNION {LET m == Must(p, UFields[i], Rng(r.nonzero)) IN
               IF m # "open" /\ r.post[i] # m THEN {<<"C10", IF m = "keep" THEN "field-overwritten" ELSE "field-not-updated", UFields[i], r.id>>} ELSE {} : i \in 1..4}
        \cup UNION {LET m == Must(p, MFields[i], Rng(r.nonzero)) IN
-              IF m # "open" /\ r.post[5 + i] # m THEN {<<"C10", IF m = "keep" THEN "field-overwritten" ELSE "field-not-updated", MFields[i], r.id>>} ELSE {} : i \in 1..2}
+              IF m # "open" /\ r.post[5 + i] # m THEN {<<"C10", IF m = "keep" THEN "field-overwritten" ELSE "field-not-updated", MFields[i], r.id>>} ELSE {} : i \in 1..3}
        \cup (LET m == MustLS(p, Rng(r.nonzero)) IN
              IF m # "open" /\ r.post[5] # m THEN {<<"C10", IF m = "keep" THEN "field-overwritten" ELSE "field-not-updated", "LS", r.id>>} ELSE {})
 
